@@ -1,7 +1,31 @@
 /-
-The ENTRY phase, store level: `processPack` on a CREATE pack for an absent key, on a SUBSCRIBE pack of a late
-joiner, and on ordinary packs, refines the abstract system `JSys` of Proofs/ProtocolJoin under the
-abstraction `absLog` / `absCps` of Proofs/ServerRefine.  Core Lean only.
+The ENTRY phase, store level.  `processPack` (Model/Server) on a CREATE pack for an absent key, on a
+SUBSCRIBE pack of a late joiner, and on ordinary packs refines the abstract system `JSys` of
+Proofs/ProtocolJoin under the abstraction `absLog` / `absCps` of Proofs/ServerRefine.
+
+What `JSys` assumes, and how creation fits it: `JSys.init` has `log = []`, `cps = []`, and clients flagged
+`true` "start subscribed on the empty log (the creator …)"; there is no create constructor — the creator's
+first request is a NORMAL request served by `JStep.serve` from ⟨0, recorded cseq 0⟩ (`JEx.reqA0`).  At
+the store level the abstraction of "the target does not exist" (no document with its id, hence by
+`LogInv.noOrphan` no operation) IS that empty state (`absent_abs`), and the create pack is exactly
+`JStep.serve` (kind `.normal`) on it — or `JStep.refuse` when `pushOps` finds a gap (`processPack_is_create`,
+`processPack_create_refused`).  So nothing is missing in `JSys`; only the response's create bit is not
+modelled there (`IsServeJ.respBits` records it).
+
+One-step theorems: `pushing_is_serve` / `pushing_is_refuse` (any dispatch path that pushes: `.create` on
+a fresh document, `.normal` on an ordinary pack, `.normal` on the creator's create pack served again),
+instantiated by `CreateReq.pushing`, `ordinary_pushing`, `createAgain_pushing`; the subscribe step is
+`SRef.processPack_is_serveSub` = `JStep.serveSub`.
+
+Runs: `SSysJ` / `SStepJ` (localOp, send, create, createAgain, serve, subscribe, subscribeOrCreate, deliver,
+deliverSub, other, frame), invariant `GoodJ` (LogInv, KeyUnique, `Phase`: target absent or present), `store_step_simulates_join`
+(each store step is a `JStep` or invisible), `store_run_simulates_join`, `store_run_from_scratch`; transferred:
+`store_log_with_late_joiners`, `store_never_refuses_join`.  Ordinary and subscribe packs arriving BEFORE the
+datatype exists are refused by the server without a trace (invisible steps).
+A pack with BOTH bits (subscribe-or-create) on the existing key is handled as the same pack without the
+create bit (`subOrCreate_eq`), hence `JStep.serveSub` too (`SStepJ.subscribeOrCreate`).
+NOT covered: a create-only pack of an unrecorded client on an existing key is refused 302
+(`create_existing_refused`) and is not a step either; read-only / volatile clients.  Core Lean only.
 -/
 import Orda.Proofs.ServerRefine
 import Orda.Proofs.ProtocolJoin
@@ -234,6 +258,69 @@ theorem ordinary_pushing {st : Store} {cl : ClientDoc} {col : CollectionDoc} {p 
   refine ⟨h.served, by simp, h.eq_finish, ?_, h.readWrite, h.noSnapshot, h.notVolatile, h.logKept⟩
   rw [h.duid]; unfold absCps; rw [h.found]
 
+
+/-- the creator's CREATE pack served AGAIN after the datatype exists (a retry, a duplicate): the key is found,
+    id and type match, the client is recorded: it is served on the normal path -/
+structure CreateAgain (st : Store) (cl : ClientDoc) (col : CollectionDoc) (p : Pack) (d : DatatypeDoc) : Prop where
+  create : p.create = true
+  readWrite : p.readOnly = false
+  noSnapshot : p.snapshot = false
+  notVolatile : cl.typ ≠ 2
+  byKey : st.getDatatypeByKey col.num p.key = some d
+  sameId : d.duid = p.duid
+  sameType : d.typ = p.typ
+  visible : d.visible = true
+  recorded : (d.sub cl.cuid false).isSome = true
+  logKept : d.sseqBegin ≤ p.cp.sseq + 1
+
+theorem createAgain_pushing {st : Store} {cl : ClientDoc} {col : CollectionDoc} {p : Pack} {d : DatatypeDoc}
+    (inv : LogInv st) (h : CreateAgain st cl col p d) : Pushing st cl col p .normal d := by
+  obtain ⟨hm, hcol⟩ := SL.getDatatypeByKey_some h.byKey
+  have hev : evalCase st col cl.cuid p = (.allMatchedSubscribed, some d) := by
+    rw [SC.evalCase_byKey (by simp [h.create]) h.byKey]
+    simp [h.sameType, h.visible, h.readWrite, h.recorded]
+  have hdsp : SL.dsp st cl col p = .normal := by
+    unfold SL.dsp
+    rw [hev]
+    have e : ∀ s, dispatch .allMatchedSubscribed true s true = .normal := by decide
+    simp [SL.sameDuid, h.sameId, h.create, e]
+  refine ⟨⟨by simp [SL.opDuid, h.sameId], hcol, Or.inr hm⟩, by simp, ?_, ?_, h.readWrite, h.noSnapshot,
+    h.notVolatile, h.logKept⟩
+  · rw [SL.processPack_eq, hdsp, hev]
+    simp [h.readWrite, SL.docOf]
+  · unfold absCps; rw [getDatatype_of_mem inv hm]
+
+
+/-- a SUBSCRIBE-OR-CREATE pack (both bits) on an EXISTING key stored under another id is handled exactly as
+    the same pack without the create bit: as a subscription -/
+theorem subOrCreate_eq {st : Store} {cl : ClientDoc} {col : CollectionDoc} {p : Pack} {d : DatatypeDoc}
+    (hs : p.subscribe = true) (hro : p.readOnly = false)
+    (hk : st.getDatatypeByKey col.num p.key = some d) (ht : d.typ = p.typ) (hv : d.visible = true)
+    (hd : d.duid ≠ p.duid) :
+    processPack st cl col p = processPack st cl col { p with create := false } := by
+  have key : ∀ q : Pack, q.subscribe = true → q.readOnly = false → q.key = p.key → q.typ = p.typ → q.duid = p.duid →
+      processPack st cl col q = SL.finish st cl col q .subscribe d := by
+    intro q qs qro qk qt qd
+    have hk' : st.getDatatypeByKey col.num q.key = some d := by rw [qk]; exact hk
+    have hev : evalCase st col cl.cuid q =
+        (if (d.sub cl.cuid q.readOnly).isSome then .allMatchedSubscribed else .allMatchedNotSubscribed, some d) := by
+      rw [SC.evalCase_byKey (by simp [qs]) hk']
+      simp only [ht, qt, hv, if_true]
+      split <;> rfl
+    have hdsp : SL.dsp st cl col q = .subscribe := by
+      unfold SL.dsp
+      rw [hev]
+      have e1 : ∀ c, dispatch .allMatchedSubscribed c true false = .subscribe := by decide
+      have e2 : ∀ c, dispatch .allMatchedNotSubscribed c true false = .subscribe := by decide
+      have hd' : d.duid ≠ q.duid := by rw [qd]; exact hd
+      by_cases hr : (d.sub cl.cuid q.readOnly).isSome = true
+      · simp [hr, qs, SL.sameDuid, hd', e1]
+      · simp [hr, qs, SL.sameDuid, hd', e2]
+    rw [SL.processPack_eq, hdsp, hev]
+    simp [qro, SL.docOf]
+  rw [key p hs hro rfl rfl rfl, key { p with create := false } hs hro rfl rfl rfl]
+  rfl
+
 /-! ## The store-level system with the entry phase -/
 
 /-- the datatype observed: collection, stored id (= the id the creator's datatype object carries), key, type -/
@@ -288,6 +375,17 @@ structure SubPackOf (tg : TargetJ) (r : JReq) (p : Pack) : Prop where
   noSnapshot : p.snapshot = false
   sseq : p.cp.sseq = r.s
 
+/-- a SUBSCRIBE-OR-CREATE pack (both bits) of a late joiner carrying request `r` -/
+structure SubCreatePackOf (tg : TargetJ) (r : JReq) (p : Pack) : Prop where
+  key : p.key = tg.key
+  otherId : p.duid ≠ tg.duid
+  typ : p.typ = tg.typ
+  subscribe : p.subscribe = true
+  create : p.create = true
+  readWrite : p.readOnly = false
+  noSnapshot : p.snapshot = false
+  sseq : p.cp.sseq = r.s
+
 /-- the response the network carries back, of the kind of the exchange; an error pack carries nothing -/
 def respOfJ (k : JMsgKind) (i : Nat) (r : PPResult) : List JResp :=
   if r.resp.error then [] else [⟨k, i, r.resp.ops, r.resp.cp⟩]
@@ -314,11 +412,24 @@ inductive SStepJ (tg : TargetJ) : SSysJ → SSysJ → Prop
       PackOfJ tg r p →
       SStepJ tg T { T with st := (processPack T.st cd tg.col p).store,
                            resps := T.resps ++ respOfJ .normal r.i (processPack T.st cd tg.col p) }
+  /-- the creator's create pack handled AGAIN (retry, duplicate) once the creator is recorded -/
+  | createAgain (T : SSysJ) (r : JReq) (cl : JClient) (cd : ClientDoc) (p : Pack) :
+      r ∈ T.reqs → r.kind = .normal → T.clients[r.i]? = some cl → cd.cuid = cl.base.cuid → cd.typ ≠ 2 →
+      CreatePackOf tg r p → (alFind cd.cuid (absCps T.st tg.duid)).isSome = true →
+      SStepJ tg T { T with st := (processPack T.st cd tg.col p).store,
+                           resps := T.resps ++ respOfJ .normal r.i (processPack T.st cd tg.col p) }
   /-- (b) SUBSCRIBE: any subscribe request ever sent, any number of times, at any time (refused,
       invisibly, while the datatype does not exist) -/
   | subscribe (T : SSysJ) (r : JReq) (cl : JClient) (cd : ClientDoc) (p : Pack) :
       r ∈ T.reqs → r.kind = .sub → T.clients[r.i]? = some cl → cd.cuid = cl.base.cuid → cd.typ ≠ 2 →
       SubPackOf tg r p →
+      SStepJ tg T { T with st := (processPack T.st cd tg.col p).store,
+                           resps := T.resps ++ respOfJ .sub r.i (processPack T.st cd tg.col p) }
+  /-- … also carried as a SUBSCRIBE-OR-CREATE pack, once the datatype exists (while it does not, such a pack
+      of another id would create the key under THAT id: it is then the `create` step of that target) -/
+  | subscribeOrCreate (T : SSysJ) (r : JReq) (cl : JClient) (cd : ClientDoc) (p : Pack) :
+      r ∈ T.reqs → r.kind = .sub → T.clients[r.i]? = some cl → cd.cuid = cl.base.cuid → cd.typ ≠ 2 →
+      SubCreatePackOf tg r p → (T.st.getDatatype tg.duid).isSome = true →
       SStepJ tg T { T with st := (processPack T.st cd tg.col p).store,
                            resps := T.resps ++ respOfJ .sub r.i (processPack T.st cd tg.col p) }
   | deliver (T : SSysJ) (q : JResp) (cl : JClient) :
@@ -401,7 +512,7 @@ theorem pushing_sim {tg : TargetJ} {T : SSysJ} (inv : LogInv T.st) (ph : Phase t
     (hops : p.ops = r.ops) (hsq : p.cp.sseq = r.s) :
     Phase tg (processPack T.st cd tg.col p).store ∧
     JStep (T.abs tg) (SSysJ.abs { T with st := (processPack T.st cd tg.col p).store,
-                                        resps := T.resps ++ respOfJ JMsgKind.normal r.i (processPack T.st cd tg.col p) } tg) := by
+                                         resps := T.resps ++ respOfJ JMsgKind.normal r.i (processPack T.st cd tg.col p) } tg) := by
   cases hpush : pushOps pDuid pCol ⟨(absLog T.st doc.duid).length, (absRec T.st doc.duid cd.cuid).cseq⟩ p.ops [] with
   | ok res =>
     obtain ⟨cp2, docs⟩ := res
@@ -449,7 +560,7 @@ theorem subscribe_sim {tg : TargetJ} {T : SSysJ} (inv : LogInv T.st) (ku : KeyUn
     (hv : cd.typ ≠ 2) (hp : SubPackOf tg r p) :
     Phase tg (processPack T.st cd tg.col p).store ∧
     JStep (T.abs tg) (SSysJ.abs { T with st := (processPack T.st cd tg.col p).store,
-                                        resps := T.resps ++ respOfJ JMsgKind.sub r.i (processPack T.st cd tg.col p) } tg) := by
+                                         resps := T.resps ++ respOfJ JMsgKind.sub r.i (processPack T.st cd tg.col p) } tg) := by
   obtain ⟨hm, hdu⟩ := SL.getDatatype_some hd
   have hbk : T.st.getDatatypeByKey tg.col.num p.key = some d := by
     rw [hp.key, ← hkey, ← hcol]; exact byKey_of_mem ku inv hm
@@ -458,8 +569,8 @@ theorem subscribe_sim {tg : TargetJ} {T : SSysJ} (inv : LogInv T.st) (ku : KeyUn
     ⟨hp.subscribe, hp.noCreate, hp.readWrite, hp.noSnapshot, hbk, by rw [htyp, hp.typ], hvis, hne, hv, by omega⟩
   obtain ⟨e1, e2, e3, e4, e5, _, _, _, _, _, _, _⟩ := processPack_is_serveSub inv hsr
   rw [hdu] at e1 e2 e3 e4
-  rw [hcu, hp.sseq] at e2 e3 e4
-  rw [hcu] at e4
+  rw [hcu] at e2 e4
+  rw [hp.sseq] at e3
   have e6 : respOfJ JMsgKind.sub r.i (processPack T.st cd tg.col p)
       = [⟨.sub, r.i, (absLog T.st tg.duid).drop r.s,
           ⟨(absLog T.st tg.duid).length, (absRec T.st tg.duid cl.base.cuid).cseq⟩⟩] := by
@@ -480,5 +591,307 @@ theorem subscribe_sim {tg : TargetJ} {T : SSysJ} (inv : LogInv T.st) (ku : KeyUn
       T.resps ++ respOfJ JMsgKind.sub r.i (processPack T.st cd tg.col p)⟩
     rw [e1, e2, e6]
     exact hstep
+
+/-! ### every store step is a `JStep` or invisible -/
+
+theorem stutter_of_refused {tg : TargetJ} {T : SSysJ} {res : PPResult} (k : JMsgKind) (i : Nat)
+    (h1 : res.store = T.st) (h2 : res.resp.error = true) :
+    SSysJ.abs { T with st := res.store, resps := T.resps ++ respOfJ k i res } tg = T.abs tg := by
+  show JSys.mk _ (absLog res.store tg.duid) (absCps res.store tg.duid) _ (T.resps ++ respOfJ k i res) = JSys.mk _ _ _ _ _
+  have : respOfJ k i res = [] := by unfold respOfJ; rw [h2]; rfl
+  rw [h1, this, List.append_nil]
+
+theorem store_step_simulates_join {tg : TargetJ} {T T' : SSysJ} (g : GoodJ tg T) (s : SStepJ tg T T') :
+    GoodJ tg T' ∧ (JStep (T.abs tg) (T'.abs tg) ∨ T'.abs tg = T.abs tg) := by
+  have hgood : ∀ (cd : ClientDoc) (col : CollectionDoc) (p : Pack), LogInv (processPack T.st cd col p).store ∧
+      KeyUnique (processPack T.st cd col p).store :=
+    fun cd col p => ⟨logInv_processPack _ _ _ _ g.inv, (keyUnique_processPack _ _ _ _ g.keys g.inv.duidNodup).1⟩
+  cases s with
+  | localOp i cl o hi hu hs => exact ⟨⟨g.inv, g.keys, g.phase⟩, Or.inl (JStep.localOp (T.abs tg) i cl o hi hu hs)⟩
+  | send i cl hi => exact ⟨⟨g.inv, g.keys, g.phase⟩, Or.inl (JStep.send (T.abs tg) i cl hi)⟩
+  | deliver q cl hq hk hi hj => exact ⟨⟨g.inv, g.keys, g.phase⟩, Or.inl (JStep.deliver (T.abs tg) q cl hq hk hi hj)⟩
+  | deliverSub q cl hq hk hi => exact ⟨⟨g.inv, g.keys, g.phase⟩, Or.inl (JStep.deliverSub (T.abs tg) q cl hq hk hi)⟩
+  | create r cl cd p hr hk hi hcu hv hp hnd hnk =>
+    have hc : CreateReq T.st cd tg.col p :=
+      ⟨hp.create, hp.readWrite, hp.noSnapshot, hv, by rw [hp.key]; exact hnk, by rw [hp.duid]; exact hnd⟩
+    obtain ⟨ph, st⟩ := pushing_sim g.inv g.phase hc.pushing (doc := freshDoc tg.col p) hp.duid rfl hp.key hp.typ rfl
+      (Nat.zero_le _) hr hk hi hcu hp.ops hp.sseq
+    exact ⟨⟨(hgood _ _ _).1, (hgood _ _ _).2, ph⟩, Or.inl st⟩
+  | serve r cl cd p hr hk hi hcu hv hp =>
+    cases g.phase with
+    | present d a b c e f h =>
+      have hord : Ordinary T.st cd tg.col p d :=
+        ⟨hp.noCreate, hp.noSubscribe, hp.readWrite, hp.noSnapshot, by rw [hp.duid]; exact a, b, by rw [c, hp.key], hv,
+         by omega⟩
+      obtain ⟨ph, st⟩ := pushing_sim g.inv g.phase (ordinary_pushing hord) (hord.duid.trans hp.duid) b c e f h
+        hr hk hi hcu hp.ops hp.sseq
+      exact ⟨⟨(hgood _ _ _).1, (hgood _ _ _).2, ph⟩, Or.inl st⟩
+    | absent a b =>
+      have heq := ordinary_absent_refused (cl := cd) (col := tg.col) hp.noCreate hp.noSubscribe hp.readWrite
+        (by rw [hp.duid]; exact a)
+      have h1 : (processPack T.st cd tg.col p).store = T.st := by rw [heq]; rfl
+      have h2 : (processPack T.st cd tg.col p).resp.error = true := by rw [heq]; rfl
+      refine ⟨⟨(hgood _ _ _).1, (hgood _ _ _).2, ?_⟩, Or.inr (stutter_of_refused _ _ h1 h2)⟩
+      show Phase tg (processPack T.st cd tg.col p).store
+      rw [h1]; exact g.phase
+  | createAgain r cl cd p hr hk hi hcu hv hp hrec =>
+    cases g.phase with
+    | absent a _ =>
+      rw [(absent_abs g.inv a).2] at hrec
+      simp [alFind] at hrec
+    | present d a b c e f h =>
+      obtain ⟨hm, hdu⟩ := SL.getDatatype_some a
+      have hbk : T.st.getDatatypeByKey tg.col.num p.key = some d := by
+        rw [hp.key, ← c, ← b]; exact byKey_of_mem g.keys g.inv hm
+      have hrec' : (d.sub cd.cuid false).isSome = true := by
+        unfold absCps at hrec
+        rw [a] at hrec
+        simp only [] at hrec
+        rw [alFind_map (fun s : SubClient => s.cp)] at hrec
+        simpa [DatatypeDoc.sub] using hrec
+      have hca : CreateAgain T.st cd tg.col p d :=
+        ⟨hp.create, hp.readWrite, hp.noSnapshot, hv, hbk, by rw [hdu, hp.duid], by rw [e, hp.typ], f, hrec', by omega⟩
+      obtain ⟨ph, st⟩ := pushing_sim g.inv g.phase (createAgain_pushing g.inv hca) hdu b c e f h
+        hr hk hi hcu hp.ops hp.sseq
+      exact ⟨⟨(hgood _ _ _).1, (hgood _ _ _).2, ph⟩, Or.inl st⟩
+  | subscribe r cl cd p hr hk hi hcu hv hp =>
+    cases g.phase with
+    | present d a b c e f h =>
+      obtain ⟨ph, st⟩ := subscribe_sim g.inv g.keys a b c e f h hr hk hi hcu hv hp
+      exact ⟨⟨(hgood _ _ _).1, (hgood _ _ _).2, ph⟩, Or.inl st⟩
+    | absent a b =>
+      obtain ⟨he, h1⟩ := subscribe_missing_refused T.st cd tg.col p hp.noCreate hp.subscribe hp.readWrite
+        (by rw [hp.key]; exact b)
+      have h2 : (processPack T.st cd tg.col p).resp.error = true := by
+        rcases he with he | he <;> exact he.1
+      refine ⟨⟨(hgood _ _ _).1, (hgood _ _ _).2, ?_⟩, Or.inr (stutter_of_refused _ _ h1 h2)⟩
+      show Phase tg (processPack T.st cd tg.col p).store
+      rw [h1]; exact g.phase
+  | subscribeOrCreate r cl cd p hr hk hi hcu hv hp hex =>
+    cases g.phase with
+    | absent a _ => rw [a] at hex; cases hex
+    | present d a b c e f h =>
+      obtain ⟨hm, hdu⟩ := SL.getDatatype_some a
+      have hbk : T.st.getDatatypeByKey tg.col.num p.key = some d := by
+        rw [hp.key, ← c, ← b]; exact byKey_of_mem g.keys g.inv hm
+      have heq := subOrCreate_eq (cl := cd) hp.subscribe hp.readWrite hbk (by rw [e, hp.typ]) f
+        (by rw [hdu]; exact fun x => hp.otherId x.symm)
+      have hp' : SubPackOf tg r { p with create := false } :=
+        ⟨hp.key, hp.otherId, hp.typ, hp.subscribe, rfl, hp.readWrite, hp.noSnapshot, hp.sseq⟩
+      obtain ⟨ph, st⟩ := subscribe_sim g.inv g.keys a b c e f h hr hk hi hcu hv hp'
+      rw [heq]
+      exact ⟨⟨(hgood _ _ _).1, (hgood _ _ _).2, ph⟩, Or.inl st⟩
+  | other cd col p hne hkey =>
+    obtain ⟨hd, ho⟩ := frame_other_datatypes T.st cd col p
+    obtain ⟨h1, h2, h3⟩ := abs_of_frame (u := tg.duid) (fun e => hne e.symm) hd ho
+    refine ⟨⟨(hgood _ _ _).1, (hgood _ _ _).2, phase_of_same h1 hkey.symm g.phase⟩, Or.inr ?_⟩
+    show JSys.mk _ _ _ _ _ = JSys.mk _ _ _ _ _
+    rw [h2, h3]
+  | frame st' hd ho =>
+    obtain ⟨h1, h2, h3⟩ := abs_of_same hd ho tg.duid
+    have hbk : st'.getDatatypeByKey tg.col.num tg.key = T.st.getDatatypeByKey tg.col.num tg.key := by
+      unfold Store.getDatatypeByKey; rw [hd]
+    refine ⟨⟨SL.logInv_congr hd ho g.inv, ?_, ?_⟩, Or.inr ?_⟩
+    · show KeyUnique st'
+      unfold KeyUnique; rw [hd]; exact g.keys
+    · show Phase tg st'
+      cases g.phase with
+      | absent a b => exact .absent (by rw [h1]; exact a) (by rw [hbk]; exact b)
+      | present d a b c e f h => exact .present d (by rw [h1]; exact a) b c e f h
+    · show JSys.mk _ _ _ _ _ = JSys.mk _ _ _ _ _
+      rw [h2, h3]
+
+/-- **Runs with the entry phase.**  Every run of the store-level system — creation of the target by a create
+    pack, late subscriptions (served any number of times, at any time), ordinary pushes and pulls, local
+    operations, deliveries of normal and subscribe responses in any order, other datatypes' traffic,
+    administrative changes — is matched step by step by `JStep`s of `ProtocolJoin`'s system (or is
+    invisible) under the abstraction `SSysJ.abs`. -/
+theorem store_run_simulates_join {tg : TargetJ} {cuids : List (String × Bool)} {T0 T : SSysJ}
+    (g0 : GoodJ tg T0) (h0 : JReach cuids (T0.abs tg)) (run : SRunJ tg T0 T) :
+    GoodJ tg T ∧ JReach cuids (T.abs tg) := by
+  induction run with
+  | refl => exact ⟨g0, h0⟩
+  | step _ s ih =>
+    obtain ⟨g, h⟩ := ih
+    obtain ⟨g', hs⟩ := store_step_simulates_join g s
+    refine ⟨g', ?_⟩
+    rcases hs with hs | hs
+    · exact JReach.step h hs
+    · rw [hs]; exact h
+
+/-! ### late-joiner invariants, as theorems about the STORE -/
+
+theorem GoodJ.absLog_eq {tg : TargetJ} {T : SSysJ} (g : GoodJ tg T) :
+    absLog T.st tg.duid = (T.st.opsOf tg.duid).map (·.op) := by
+  cases g.phase with
+  | absent a _ =>
+    have h0 : T.st.opsOf tg.duid = [] := SL.opsOf_nil_of_fresh g.inv (SL.getDatatype_none a)
+    rw [(absent_abs g.inv a).1, h0]; rfl
+  | present d a _ _ _ _ _ =>
+    obtain ⟨hm, hdu⟩ := SL.getDatatype_some a
+    have := g.inv.gapless d hm
+    rw [hdu] at this
+    exact SRef.absLog_eq this
+
+/-- **The stored log is exactly what was issued and acknowledged, late joiners included.**  In every state
+    of a run (from before the datatype exists on), the operation documents stored for the target, in store
+    order (= what `getOperations` returns): are exactly the operations issued by JOINED clients after their
+    join and acknowledged by the server's record; carry no (client, seq) pair twice; per client are its
+    acknowledged operations in issue order — and nothing of a client that has not joined (in particular
+    none of the operations it issued while due to subscribe, which its subscribe pack carried along) is
+    stored; every client has applied exactly the foreign operations of the log prefix it has seen (the
+    prefix received at its join included), once each, in log order. -/
+theorem store_log_with_late_joiners {tg : TargetJ} {cuids : List (String × Bool)} {T0 T : SSysJ}
+    (g0 : GoodJ tg T0) (h0 : JReach cuids (T0.abs tg)) (run : SRunJ tg T0 T) :
+    let log := (T.st.opsOf tg.duid).map (·.op)
+    (T.st.getOperations tg.duid 1).map (·.op) = log ∧
+    (∀ o, o ∈ log ↔ ∃ cl ∈ T.clients, cl.joined = true ∧
+      o ∈ cl.base.buf.take (absRec T.st tg.duid cl.base.cuid).cseq) ∧
+    (log.map (fun o => (o.id.cuid, o.id.seq))).Nodup ∧
+    (∀ cl ∈ T.clients, log.filter (fun o => o.id.cuid = cl.base.cuid) =
+      if cl.joined then cl.base.buf.take (absRec T.st tg.duid cl.base.cuid).cseq else []) ∧
+    (∀ cl ∈ T.clients, cl.base.applied = (log.take cl.base.cp.sseq).filter (fun o => o.id.cuid ≠ cl.base.cuid)) := by
+  obtain ⟨g, h⟩ := store_run_simulates_join g0 h0 run
+  intro log
+  have e : absLog T.st tg.duid = log := g.absLog_eq
+  obtain ⟨a, b, c⟩ := join_log_is_exactly_issued h
+  refine ⟨e, ?_, ?_, ?_, ?_⟩
+  · rw [← e]; exact a
+  · rw [← e]; exact b
+  · rw [← e]; exact c
+  · intro cl hcl
+    have := (join_inv_client h cl hcl).2.2.2.2.2.1
+    rw [← e]; exact this
+
+/-- **No spurious refusal once the datatype exists**: `processPack` answers any NORMAL request ever sent,
+    carried as an ordinary pack, without an error -/
+theorem store_never_refuses_join {tg : TargetJ} {cuids : List (String × Bool)} {T0 T : SSysJ}
+    (g0 : GoodJ tg T0) (h0 : JReach cuids (T0.abs tg)) (run : SRunJ tg T0 T)
+    {r : JReq} {cl : JClient} {cd : ClientDoc} {p : Pack} {d : DatatypeDoc} (hex : T.st.getDatatype tg.duid = some d)
+    (hr : r ∈ T.reqs) (hk : r.kind = .normal) (hi : T.clients[r.i]? = some cl) (hcu : cd.cuid = cl.base.cuid)
+    (hv : cd.typ ≠ 2) (hp : PackOfJ tg r p) :
+    (processPack T.st cd tg.col p).resp.error = false := by
+  obtain ⟨g, h⟩ := store_run_simulates_join g0 h0 run
+  cases g.phase with
+  | absent a _ => rw [a] at hex; cases hex
+  | present d' a b c e f hb =>
+    have hord : Ordinary T.st cd tg.col p d' :=
+      ⟨hp.noCreate, hp.noSubscribe, hp.readWrite, hp.noSnapshot, by rw [hp.duid]; exact a, b, by rw [c, hp.key], hv,
+       by omega⟩
+    obtain ⟨cp2, docs, hpush⟩ := join_never_refused h (r := r) (cl := cl) hr hk hi
+    have hpush' : pushOps pDuid pCol ⟨(absLog T.st p.duid).length, (absRec T.st p.duid cd.cuid).cseq⟩ p.ops []
+        = .ok (cp2, docs) := by
+      rw [hp.duid, hcu, hp.ops]; exact hpush
+    exact (processPack_is_serve g.inv hord hpush').respOk.1
+
+/-- the initial state: a good store in which the target does not exist; clients flagged `true` (the
+    creator) count as joined on the empty log, the others are due to subscribe — `JSys.init` -/
+def SSysJ.init (st0 : Store) (cs : List (String × Bool)) : SSysJ :=
+  ⟨st0, cs.map (fun c => ⟨⟨c.1, [], ⟨0, 0⟩, []⟩, c.2⟩), [], []⟩
+
+theorem store_run_from_scratch {tg : TargetJ} {cs : List (String × Bool)} {st0 : Store} {T : SSysJ}
+    (hnd : (cs.map (·.1)).Nodup) (inv : LogInv st0) (ku : KeyUnique st0)
+    (hid : st0.getDatatype tg.duid = none) (hkey : st0.getDatatypeByKey tg.col.num tg.key = none)
+    (run : SRunJ tg (SSysJ.init st0 cs) T) : GoodJ tg T ∧ JReach cs (T.abs tg) := by
+  apply store_run_simulates_join ⟨inv, ku, .absent hid hkey⟩ _ run
+  obtain ⟨a1, a2⟩ := absent_abs inv hid
+  have : (SSysJ.init st0 cs).abs tg = JSys.init cs := by
+    show JSys.mk _ (absLog st0 tg.duid) (absCps st0 tg.duid) _ _ = JSys.mk _ _ _ _ _
+    rw [a1, a2]; rfl
+  rw [this]; exact JReach.init hnd
+
+/-! ## Non-vacuity: the store of `SRef.Ex`, built from scratch THROUGH the steps
+
+From `s2` (collection "c" made, clients "a", "b" registered, no datatype): a issues its snapshot operation
+and sends; the request is handled as a CREATE pack (`s3`); a receives the answer; b (due to subscribe)
+sends a subscribe request, handled as a SUBSCRIBE pack with b's own id "d2" (`s4`); b receives the
+subscribe response and joins; b issues `b1`, sends, the request is handled as an ordinary pack (`s5`), b
+receives the answer. -/
+namespace ExJ
+open Orda.SRef.Ex
+
+def tg : TargetJ := ⟨col, "d1", "k", .counter⟩
+def cs : List (String × Bool) := [("a", true), ("b", false)]
+
+def A (buf : List Op) (cp : CheckPoint) : JClient := ⟨⟨"a", buf, cp, []⟩, true⟩
+def Bn : JClient := ⟨⟨"b", [], ⟨0, 0⟩, []⟩, false⟩
+def B (buf : List Op) (cp : CheckPoint) : JClient := ⟨⟨"b", buf, cp, [a1]⟩, true⟩
+def rA : JReq := ⟨.normal, 0, 0, [a1]⟩
+def rB0 : JReq := ⟨.sub, 1, 0, []⟩
+def rB1 : JReq := ⟨.normal, 1, 1, [b1]⟩
+def qA : JResp := ⟨.normal, 0, [], ⟨1, 1⟩⟩
+def qB0 : JResp := ⟨.sub, 1, [a1], ⟨1, 0⟩⟩
+def qB1 : JResp := ⟨.normal, 1, [], ⟨2, 1⟩⟩
+
+def U1 : SSysJ := ⟨s2, [A [a1] ⟨0, 0⟩, Bn], [], []⟩
+def U2 : SSysJ := ⟨s2, [A [a1] ⟨0, 0⟩, Bn], [rA], []⟩
+def U3 : SSysJ := ⟨s3, [A [a1] ⟨0, 0⟩, Bn], [rA], [qA]⟩
+def U4 : SSysJ := ⟨s3, [A [a1] ⟨1, 1⟩, Bn], [rA], [qA]⟩
+def U5 : SSysJ := ⟨s3, [A [a1] ⟨1, 1⟩, Bn], [rA, rB0], [qA]⟩
+def U6 : SSysJ := ⟨s4, [A [a1] ⟨1, 1⟩, Bn], [rA, rB0], [qA, qB0]⟩
+def U7 : SSysJ := ⟨s4, [A [a1] ⟨1, 1⟩, B [] ⟨1, 0⟩], [rA, rB0], [qA, qB0]⟩
+def U8 : SSysJ := ⟨s4, [A [a1] ⟨1, 1⟩, B [b1] ⟨1, 0⟩], [rA, rB0], [qA, qB0]⟩
+def U9 : SSysJ := ⟨s4, [A [a1] ⟨1, 1⟩, B [b1] ⟨1, 0⟩], [rA, rB0, rB1], [qA, qB0]⟩
+def U10 : SSysJ := ⟨s5, [A [a1] ⟨1, 1⟩, B [b1] ⟨1, 0⟩], [rA, rB0, rB1], [qA, qB0, qB1]⟩
+def U11 : SSysJ := ⟨s5, [A [a1] ⟨1, 1⟩, B [b1] ⟨2, 1⟩], [rA, rB0, rB1], [qA, qB0, qB1]⟩
+
+example : SSysJ.init s2 cs = ⟨s2, [A [] ⟨0, 0⟩, Bn], [], []⟩ := rfl
+
+theorem run : SRunJ tg (SSysJ.init s2 cs) U11 := by
+  have r1 : SRunJ tg (SSysJ.init s2 cs) U1 := .step (.refl _) (.localOp _ 0 (A [] ⟨0, 0⟩) a1 rfl rfl rfl)
+  have r2 : SRunJ tg (SSysJ.init s2 cs) U2 := .step r1 (.send _ 0 (A [a1] ⟨0, 0⟩) rfl)
+  -- (a) the create pack
+  have r3 : SRunJ tg (SSysJ.init s2 cs) U3 := .step r2 (.create _ rA (A [a1] ⟨0, 0⟩) cA packCreate (by simp [U2]) rfl rfl rfl
+    (by decide) ⟨rfl, rfl, rfl, rfl, rfl, rfl, rfl, rfl⟩ rfl rfl)
+  have r4 : SRunJ tg (SSysJ.init s2 cs) U4 := .step r3 (.deliver _ qA (A [a1] ⟨0, 0⟩) (by simp [U3]) rfl rfl rfl)
+  -- (b) the late joiner
+  have r5 : SRunJ tg (SSysJ.init s2 cs) U5 := .step r4 (.send _ 1 Bn rfl)
+  have r6 : SRunJ tg (SSysJ.init s2 cs) U6 := .step r5 (.subscribe _ rB0 Bn cB packSub (by simp [U5]) rfl rfl rfl
+    (by decide) ⟨rfl, by decide, rfl, rfl, rfl, rfl, rfl, rfl⟩)
+  have r7 : SRunJ tg (SSysJ.init s2 cs) U7 := .step r6 (.deliverSub _ qB0 Bn (by simp [U6]) rfl rfl)
+  -- an ordinary push-pull of the late joiner
+  have r8 : SRunJ tg (SSysJ.init s2 cs) U8 := .step r7 (.localOp _ 1 (B [] ⟨1, 0⟩) b1 rfl rfl rfl)
+  have r9 : SRunJ tg (SSysJ.init s2 cs) U9 := .step r8 (.send _ 1 (B [b1] ⟨1, 0⟩) rfl)
+  have r10 : SRunJ tg (SSysJ.init s2 cs) U10 := .step r9 (.serve _ rB1 (B [b1] ⟨1, 0⟩) cB packB (by simp [U9]) rfl rfl rfl
+    (by decide) ⟨rfl, rfl, rfl, rfl, rfl, rfl, rfl, rfl⟩)
+  exact .step r10 (.deliver _ qB1 (B [b1] ⟨1, 0⟩) (by simp [U10]) rfl rfl rfl)
+
+/-- … and the creator's create pack is delivered to the server ONCE MORE (a duplicate): served on the normal
+    path, `a1` skipped as a duplicate, nothing stored, a's record moves to ⟨2,1⟩, the answer is the whole log -/
+def s6 : Store := (processPack s5 cA col packCreate).store
+def qA2 : JResp := ⟨.normal, 0, [a1, b1], ⟨2, 1⟩⟩
+def U12 : SSysJ := ⟨s6, [A [a1] ⟨1, 1⟩, B [b1] ⟨2, 1⟩], [rA, rB0, rB1], [qA, qB0, qB1, qA2]⟩
+
+theorem run12 : SRunJ tg (SSysJ.init s2 cs) U12 :=
+  .step run (.createAgain _ rA (A [a1] ⟨1, 1⟩) cA packCreate (by simp [U11]) rfl rfl rfl (by decide)
+    ⟨rfl, rfl, rfl, rfl, rfl, rfl, rfl, rfl⟩ rfl)
+
+example : s6.operations = s5.operations ∧ absCps s6 "d1" = [("a", ⟨2, 1⟩), ("b", ⟨2, 1⟩)] := ⟨rfl, rfl⟩
+
+theorem inv2 : LogInv s2 :=
+  logInv_processClient _ _ _ _ (logInv_processClient _ _ _ _ (logInv_makeCollection _ _ logInv_empty))
+
+theorem keys2 : KeyUnique s2 := fun _ h1 => absurd h1 List.not_mem_nil
+
+/-- the run ends in a state whose abstraction is `JReach`able -/
+theorem reach : GoodJ tg U11 ∧ JReach cs (U11.abs tg) :=
+  store_run_from_scratch (by decide) inv2 keys2 rfl rfl run
+
+theorem reach12 : GoodJ tg U12 ∧ JReach cs (U12.abs tg) :=
+  store_run_from_scratch (by decide) inv2 keys2 rfl rfl run12
+
+/-- the one-step create theorem instantiated: hypotheses by `rfl`/`decide`, abstract log shown -/
+example : absLog s3 "d1" = [a1] ∧ absCps s3 "d1" = [("a", ⟨1, 1⟩)] :=
+  have h := processPack_is_create (st := s2) (cl := cA) (col := col) (p := packCreate) inv2
+    ⟨rfl, rfl, rfl, by decide, rfl, rfl⟩ (cp2 := ⟨1, 1⟩) (docs := [⟨pDuid, pCol, 1, a1⟩]) rfl
+  ⟨h.2.2.1, h.2.2.2.1⟩
+
+/-- the late-joiner invariant read off the store `s5`, from the theorem and by evaluation -/
+example : ((s5.opsOf "d1").map (·.op)).filter (fun o => o.id.cuid = "b") = [b1] :=
+  (store_log_with_late_joiners ⟨inv2, keys2, .absent rfl rfl⟩
+    (by show JReach cs (JSys.init cs); exact JReach.init (by decide)) run).2.2.2.1 (B [b1] ⟨2, 1⟩) (by simp [U11])
+example : (s5.opsOf "d1").map (·.op) = [a1, b1] := rfl
+
+end ExJ
 
 end Orda.SRefJ
